@@ -31,6 +31,9 @@ pub(crate) mod verif_sem {
         let fmode = cfg & 3;
         let pre = ((cfg >> 2) & 3) as usize;
         let kslots = if (cfg >> 4) & 3 == 0 { K } else { ((cfg >> 4) & 3) as usize };
+        // bit 6 "steal" partition: after the `pre` fixed polls the next two operations are fixed to release(a) and
+        // try_acquire(b) with symbolic amounts (a notified waiter whose permits may get stolen)
+        let steal = (cfg >> 6) & 1 == 1;
         let fair = if fmode == 2 { s.flag() } else { fmode == 1 };
         let init = s.below(4) as usize;
         let sem = GenericSemaphore::<M>::new(fair, init);
@@ -68,7 +71,10 @@ pub(crate) mod verif_sem {
         let mut step = 0;
         while step < n && !s.exhausted() {
             step += 1;
-            let op = if step <= pre { ((step - 1) * 2) as u8 } else { s.below(19) };
+            let op = if step <= pre { ((step - 1) * 2) as u8 }
+                     else if steal && step == pre + 1 { 17 }
+                     else if steal && step == pre + 2 { 18 }
+                     else { s.below(19) };
             let mut was_release = false;
             if op < 6 {
                 // ---- poll slot i with waker w ----
@@ -672,6 +678,12 @@ pub(crate) mod verif_sem {
         hist_proof!(hist_c06_u_p1_n5, NoopLock, 5, P06, 0 | (1 << 2), 6);
         hist_proof!(hist_c06_f_p1_n5, NoopLock, 5, P06, 1 | (1 << 2), 6);
         hist_proof!(hist_c07_f_p1_n5, NoopLock, 5, P07, 1 | (1 << 2), 6);
+        hist_proof!(hist_c06_u_p1s_n5, NoopLock, 5, P06, 0 | (1 << 2) | (1 << 6), 6);
+        hist_proof!(hist_c06_u_p2s_n6, NoopLock, 6, P06, 0 | (2 << 2) | (1 << 6), 7);
+        hist_proof!(hist_c05_x_p1s_n5, NoopLock, 5, P05, 2 | (1 << 2) | (1 << 6), 6);
+        hist_proof!(hist_c06_u_k1_n5, NoopLock, 5, P06, 0 | (1 << 4), 6);
+        hist_proof!(hist_c06_u_k2_n5, NoopLock, 5, P06, 0 | (2 << 4), 6);
+        hist_proof!(hist_c05_x_k1_n5, NoopLock, 5, P05, 2 | (1 << 4), 6);
         macro_rules! step_proof {
             ($name:ident, $lock:ty, $fair:expr, $class:expr, $amax:expr, $p:expr) => {
                 #[kani::proof]
